@@ -143,6 +143,11 @@ func c13Exec(root string, c *c13Case, plan core.FSPlan) *c13Outcome {
 	if c.DestMode == "other-present" {
 		must(os.WriteFile(dest, c.Old, 0o600))
 	}
+	if c.DestMode == "symlink" {
+		// the output path is a symbolic link to an existing regular file
+		must(os.WriteFile(filepath.Join(root, "target.dat"), c.Old, 0o600))
+		must(os.Symlink("target.dat", dest))
+	}
 	if c.HardLink {
 		must(os.Link(in, link))
 	}
@@ -316,7 +321,7 @@ func c13Gen(r *core.Run) *c13Case {
 	t := r.T
 	c := &c13Case{}
 	c.Strategy = core.Pick(t, "strategy", "whole", "patch", "writefile", "pgp-detached", "pgp-inline", "pgp-clearsign", "msi", "pe-fixup")
-	c.DestMode = core.Pick(t, "dest", "other-present", "other-absent", "same")
+	c.DestMode = core.Pick(t, "dest", "other-present", "other-absent", "same", "symlink")
 	sizes := []int{1, 17, 4096, 32 * 1024, 32*1024 + 1, 70000, 200000}
 	c.Mime = "application/octet-stream"
 	switch c.Strategy {
@@ -393,7 +398,7 @@ func c13Gen(r *core.Run) *c13Case {
 			c.HardLink = true // in-place append would be exempt
 		}
 	}
-	if c.DestMode == "other-present" {
+	if c.DestMode == "other-present" || c.DestMode == "symlink" {
 		c.Old = t.Bytes(sizes[t.Choose(len(sizes), "oldlen")], "old")
 	}
 	return c
@@ -407,6 +412,8 @@ func pathClass(p string) string {
 		return "dest"
 	case p == "in.lnk":
 		return "link"
+	case p == "target.dat":
+		return "symlink-target"
 	case strings.Contains(p, ".tmp"):
 		return "tmp"
 	}
@@ -465,7 +472,7 @@ func c13Run(r *core.Run) {
 	var oldDest []byte
 	destExisted := false
 	switch c.DestMode {
-	case "other-present":
+	case "other-present", "symlink":
 		oldDest, destExisted = c.Old, true
 	case "same":
 		oldDest, destExisted = c.In, true
